@@ -165,8 +165,23 @@ func (r *raceW) allDone() bool { return r.usersDone >= r.nusers && r.peerDone }
 //go:norace
 func (r *raceW) isRunDone() bool { return r.runDone }
 
+// asyncCb is the callback of every asynchronous request: it must run on an event-loop thread.
+//
 //go:norace
-func (r *raceW) asyncCb(Conn, error) error { r.cbs++; return nil }
+func (r *raceW) asyncCb(Conn, error) error {
+	r.cbs++
+	t := sched.CurrentThread()
+	onLoop := false
+	for _, lt := range r.loopThr {
+		if lt == t {
+			onLoop = true
+		}
+	}
+	if !onLoop && r.confine == "" && len(r.loopThr) > 0 {
+		r.confine = fmt.Sprintf("the callback of an asynchronous request ran on thread %d (%s), which is not an event-loop thread", t, sched.CurrentName())
+	}
+	return nil
+}
 
 type raceRunnable struct{ r *raceW }
 
@@ -267,13 +282,20 @@ func (r *raceW) userB() {
 	switch r.cfg.kind {
 	case "async":
 		_ = c.AsyncWritev([][]byte{[]byte("x")}, r.asyncCb)
+		c.SetSafeContext(42) // a second publication, of another dynamic type
+		_ = c.SafeContext()
 		_ = eng.CountConnections()
 	case "close":
 		_ = c.Wake(r.asyncCb)
 		_ = c.AsyncWrite([]byte("late"), r.asyncCb)
+		_ = c.AsyncWritev([][]byte{[]byte("later")}, r.asyncCb)
 	case "stop":
 		_ = c.AsyncWrite([]byte("x"), r.asyncCb)
 		_ = eng.CountConnections()
+		// requests that overlap the tail of the shutdown
+		_ = c.Wake(r.asyncCb)
+		_ = c.EventLoop().Execute(context.Background(), raceRunnable{r})
+		_ = c.AsyncWrite([]byte("y"), r.asyncCb)
 	default:
 		_ = c.Fd()
 		_ = c.SafeContext()
@@ -450,3 +472,6 @@ func TestMC_C05(t *testing.T) {
 		return nil
 	}, fmt.Sprintf("%d scenarios (user goroutines calling AsyncWrite/AsyncWritev/Wake/Close/CloseWithCallback/SafeContext/SetSafeContext/Fd/Dup/socket options/Execute/Register/CountConnections/Stop against accept, traffic, close, tick, engine start and stop) x {LT,ET}, built with -race and futex hand-offs: every schedule within the delay bound is judged by the race detector and by the confinement monitor", len(cfgs)))
 }
+
+//go:norace
+func (r *raceW) Cleanup() { mcsys.CloseAllOpen() }
